@@ -25,7 +25,7 @@ EXHAUSTIVE = False
 
 def cases(tier, seed):
     rng = random.Random(f"C11/{seed}")
-    nmax, count, amb, msize = (7, 12000, 1500, 100) if tier == "quick" else (10, 60000, 8000, 400)
+    nmax, count, amb, msize = (7, 12000, 1500, 100) if tier == "quick" else (10, 120000, 16000, 400)
     cl = [("rand", 4), ("rand-wide", 2), ("gadget", 3), ("inputs", 3), ("dense-neg", 1)]
     nets = gen.corpus() + [gen.draw(rng, cl, nmax) for _ in range(count)]
     out = [{"net": gen.exh2(i), "cls": "exh2", "mode": "exh", "rs": i} for i in range(256)]
